@@ -40,6 +40,25 @@ pub fn check_pair<B: StrictOps>(f: &P, g: &P, loc: &mut Local) {
         loc.violation("compose:definedness", json!({"case": case}));
     }
     typed(loc, "tensor", B::tensor(f, g).map(Some), &cat(&a, &c), &cat(&b, &d), &case);
+    // hypergraph-level entry points: coproduct, `+`, empty, discrete
+    loc.trans(4);
+    match B::hypergraph_level(f, g) {
+        Err(e) => loc.violation(&format!("hypergraph-level:{}", e.kind()), json!({"case": case, "failure": e.msg()})),
+        Ok((cp, add, empty, (disc, is_disc))) => {
+            let mut exp = f.tensor(g);
+            exp.s.clear();
+            exp.t.clear();
+            if cp != exp || add != exp {
+                loc.violation("Hypergraph::coproduct-or-+:not-the-juxtaposition", json!({"case": case, "coproduct": cp, "plus": add, "expected": exp}));
+            }
+            if !empty.nodes.is_empty() || !empty.edges.is_empty() {
+                loc.violation("Hypergraph::empty-not-empty", json!({"got": empty}));
+            }
+            if disc.nodes != f.nodes || !disc.edges.is_empty() || !is_disc {
+                loc.violation("Hypergraph::discrete-wrong", json!({"case": case, "got": disc, "is_discrete": is_disc}));
+            }
+        }
+    }
     if b == c {
         loc.nontrivial();
     }
@@ -61,6 +80,14 @@ pub fn check_single<B: StrictOps>(f: &P, loc: &mut Local) {
             }
         }
         Err(e) => loc.violation(&format!("source/target:{}", e.kind()), json!({"case": case, "failure": e.msg()})),
+    }
+    match B::source_target_trait(f) {
+        Ok((s, t)) => {
+            if s != a || t != b {
+                loc.violation("Arrow::source/target-differ-from-the-type", json!({"case": case, "got": [s, t]}));
+            }
+        }
+        Err(e) => loc.violation(&format!("Arrow::source/target:{}", e.kind()), json!({"case": case, "failure": e.msg()})),
     }
     match B::validate_roundtrip(f) {
         Ok(true) => {}
